@@ -85,6 +85,9 @@ class MemoSim:
                 for p in self.pred.pop(e, ()):
                     self.succ.get(p, set()).discard(e)
                 self.upred.pop(e, None)
+            # (uncached callees noted for an element that then failed, whether or not anything was linked to it)
+            for e in [e for e in list(self.upred) if e not in self.held and e not in onstack]:
+                self.upred.pop(e, None)
 
         onstack = set()
         orig_run = run
